@@ -44,7 +44,10 @@ func envOr(k, d string) string {
 
 const (
 	instrPkg = "clone,io/fasta,io/uniprot,transform/codon,random"
-	fullFns  = "Optimize,OptimizeTable,ProteinSequence,getConstructs,recurseLigate,CircularLigate,ParseConcurrent,Parse,Read,GetCodonTable"
+	// dependencies of the above: only functions that bear concurrency or touch
+	// package-level state are instrumented there, pure functions are left alone
+	helperPkg = "seqhash,transform,checks,io/genbank,io/gff,io/polyjson,primers,transform/variants"
+	fullFns   = "Optimize,OptimizeTable,ProteinSequence,getConstructs,recurseLigate,CircularLigate,ParseConcurrent,Parse,Read,GetCodonTable"
 )
 
 type workerCfg struct {
@@ -197,7 +200,7 @@ func buildHarness(prop string) string {
 	if _, err := os.Stat(instr); err != nil {
 		die(2, "instrumenter not built (run MANIFEST.setup_cmd): %v", err)
 	}
-	if out, err := run(scratch, os.Environ(), instr, "-root", poly, "-pkgs", instrPkg, "-full", fullFns, "-report", filepath.Join(scratch, "instr.json")); err != nil {
+	if out, err := run(scratch, os.Environ(), instr, "-root", poly, "-pkgs", instrPkg, "-helperpkgs", helperPkg, "-full", fullFns, "-report", filepath.Join(scratch, "instr.json")); err != nil {
 		die(2, "instrumentation failed: %v\n%s", err, out)
 	}
 	mod, err := os.ReadFile(filepath.Join(verifDir, "harness", "go.mod"))
